@@ -1354,5 +1354,8 @@ func (r *runner) generate(g *gen) {
 	r.addLongLine(rule(1)+"\n# ", 'c', 70000, "\n"+rule(2)+"\n")
 	r.addLongLine(rule(1)+"\nSecRule ARGS \"@rx ", 'a', 66000, "\" \"id:2,deny\"\n"+rule(3)+"\n")
 	r.addLongLine("", ' ', 65536, rule(1)+"\n")
+	r.addLongLine(rule(1)+"\n# ", 'c', 65533, "\n"+rule(2)+"\n") // 65535 bytes: fits
+	r.addLongLine(rule(1)+"\n# ", 'c', 65534, "\n"+rule(2)+"\n") // 65536 bytes: too long
+	r.addLongLine(rule(1)+"\n# ", 'c', 65534, "")                   // last line without line feed
 	r.addText(map[string]string{"a.conf": rule(1) + " \\"}, "Include a.conf\n\"x\"\n", "line", "")
 }
